@@ -70,6 +70,13 @@ CHECKS = {
             "OneTree is stated on the relations only. TLC checks it on the layout model (n<=24, all permutations n<=5) and on the relations dumped by the real "
             "tree.Tree of every replica for n in 1..40, bf 2..6, all permutations for small n and seeded permutations otherwise.",
             "TLC soundness; position lists hold distinct ids.", "DESIGN.md section 6, C17"),
+    "C15": ("model_checking",
+            "TLA+ CmdCache module: all interleavings of add/mark/Get processes at lock granularity model-checked by TLC (FIFO, at-most-once, no loss, no lost wake-up); TLC replay of add/mark/get sequences and concurrent runs on the real CommandCache",
+            "TLC exhausts the cache with Get as a process blocked on the capacity-1 ready channel (2 clients x 2 sequence numbers, batch size 2, 2 getters) for full FIFO "
+            "batches, at-most-once, no loss and no lost wake-up. Seeded add/mark/get sequences on the real cache are replayed by TLC against the ideal 'oldest fresh "
+            "commands' rule including when a Get must block (Pass A) and against the token/scan model (Pass B); concurrent producers/consumers run under -race and are "
+            "checked for hangs, short, duplicated or reordered batches.",
+            "Each (client, sequence number) is added once, clients send in order; a sequential Get that can return does so within 25 ms.", "DESIGN.md section 6, C15"),
     "C16": ("model_checking",
             "TLA+ Leader module checked by TLC for n<=64; TLC line-check of GetLeader tables and of carousel/reputation answers of two independent real instances",
             "Round-robin validity and one-turn-each are checked by TLC on the model for every n<=64 and on the real tables (views near 0, 2^16..2^64); carousel "
